@@ -481,3 +481,26 @@ for op in ("+", "-"):
         c.ensures("refused", "refused-like-the-binary-operator")
         c.ensures("result == a", "left-operand-keeps-its-value")
         c.no_raise()
+
+
+# ---- an operand that results from a fractional power landing on whole exponents (sqrt of an area is a length): sums and differences
+#      with it are ordinary sums of lengths, on either side, at the FIRST use of the operand as well as later -------------------------------
+for opname, sym in (("__add__", "+"), ("__sub__", "-")):
+    @contract(f"{Q}.{opname}", ["C06"], name=f"Quantity.{opname}[operand-from-a-fractional-power]")
+    def _(c, opname=opname, sym=sym):
+        c.bound = "sqrt of an area and cube root of a volume (exponent as float, pair) as left or right operand of a sum with a length; magnitudes symbolic"
+        for unit, p, label in (("m^2", 0.5, "m2**0.5"), ("c:m^2", (1, 2), "cm2**(1,2)"), ("m^3", (1, 3), "m3**(1,3)")):
+            for side in ("left", "right"):
+                def pre(bd, unit=unit, p=p, side=side):
+                    x, y = bd.real("x"), bd.real("y")
+                    bd.assume_rel(x, ">", 0)
+                    root = bd.call(bd.getattr(bd.new(Q, x, U.render(T(unit))), "__pow__"), p)
+                    f = U.factor(T(unit)) ** (0.5 if p in (0.5, (1, 2)) else 1.0 / 3)
+                    other = bd.new(Q, y, "mm")
+                    rv = bd.getattr(bd.getattr(root, "magnitude"), "value")
+                    a, b = (root, other) if side == "left" else (other, root)
+                    return dict(args=[a, b], env=dict(rv=rv, y=y, f=f, side=side))
+                c.scenario(f"{label} {sym} mm [{side}]" if side == "left" else f"mm {sym} {label}", pre)
+        op = "+" if sym == "+" else "-"
+        c.ensures(f"near(result.magnitude.value, (rv {op} y * 0.001 / f) if side == 'left' else (y {op} rv * f / 0.001))", "base-value-is-the-sum-of-base-values-in-the-left-units")
+        c.no_raise()
